@@ -149,6 +149,57 @@ pub fn check_scenario(sc: &Scenario, renders: usize) -> Result<serde_json::Value
     Ok(json!({"result": first.chars().take(60).collect::<String>(), "lookups": looked_up, "reached_bad": reached_bad}))
 }
 
+/// The partial store seen through its whole interface (a custom tag may call any of it): under
+/// every policy `contains` says whether the source has the name, `names` lists the source's names,
+/// `try_get` / `get` hand out a partial exactly for names that exist and parse, and what they hand
+/// out renders like `include` of that name.
+pub fn probe_store_api(sc: &Scenario) -> Result<u64, (String, String)> {
+    let bad = broken_names(sc);
+    let mut names: Vec<String> = sc.partials.iter().map(|(n, _)| n.clone()).collect();
+    names.sort();
+    names.dedup();
+    let mut cands: Vec<String> = names.clone();
+    cands.push("no-such-partial".into());
+    for n in names.iter().take(2) {
+        cands.push(format!("{n}.liquid"));
+        cands.push(n.trim_end_matches(".liquid").to_string());
+    }
+    cands.sort();
+    cands.dedup();
+    let mut observed = 0;
+    for policy in Policy::ALL {
+        let parser = parser_with(Config::Stdlib, policy, &sc.partials).map_err(|e| (format!("build-failed:{}", policy.name()), e.to_string()))?;
+        let (Ok(tp), Ok(ti)) = (parser.parse("{% pprobe n %}"), parser.parse("{% include n %}")) else {
+            return Err(("harness".into(), "probe templates do not parse".into()));
+        };
+        for cand in &cands {
+            let mut data = sc.data.to_object();
+            data.insert("n".into(), liquid::model::Value::scalar(cand.clone()));
+            let has = names.contains(cand);
+            let usable = has && !bad.contains(cand);
+            let inc = render(&ti, &data);
+            let want_r = match (&inc, usable) {
+                (_, false) => "-".to_string(),
+                (crate::exec::Out::Ok(s), true) => s.clone(),
+                (_, true) => "!".to_string(),
+            };
+            let want = format!("«P c={} t={} g={} n={} r={want_r}»", has as u8, usable as u8, usable as u8, names.join(","));
+            let got = render(&tp, &data);
+            observed += 1;
+            if let crate::exec::Out::Panic(p) = &got {
+                return Err((p.key(), format!("partial store probe panicked under {}: {}", policy.name(), p.msg)));
+            }
+            if got.ok() != Some(want.as_str()) {
+                return Err((
+                    format!("store-interface:{}", policy.name()),
+                    format!("under {} the partial store answers {:?} for name {cand:?}; expected {want:?}", policy.name(), got.summary().chars().take(300).collect::<String>()),
+                ));
+            }
+        }
+    }
+    Ok(observed)
+}
+
 pub fn run(ctx: &mut Ctx) {
     ctx.start_watchdog(120);
     let n = ctx.scale(30_000u64, 1_000_000u64);
@@ -210,7 +261,13 @@ pub fn run(ctx: &mut Ctx) {
         let renders = 1 + r.below(3);
         ctx.set_progress(&replay_json(&sc).to_string());
         let uses_partials = sc.main.contains("include") || sc.main.contains("render");
-        let res = check_scenario(&sc, renders);
+        let mut res = check_scenario(&sc, renders);
+        if res.is_ok() && i % 4 == 0 {
+            match probe_store_api(&sc) {
+                Ok(n) => ctx.add("store-interface:probes", n),
+                Err(e) => res = Err(e),
+            }
+        }
         ctx.record(hash_str(&sc.to_json().to_string()), uses_partials);
         match res {
             Ok(info) => {
@@ -248,7 +305,7 @@ pub fn replay(j: &serde_json::Value) -> bool {
         partials: j["partials"].as_array().map(|a| a.iter().map(|p| (p[0].as_str().unwrap_or("").to_string(), p[1].as_str().unwrap_or("").to_string())).collect()).unwrap_or_default(),
         data: crate::val::RVal::from_json(&j["data"]),
     };
-    match check_scenario(&sc, j["renders"].as_u64().unwrap_or(2) as usize) {
+    match check_scenario(&sc, j["renders"].as_u64().unwrap_or(2) as usize).and_then(|info| probe_store_api(&sc).map(|n| json!({"render": info, "store_interface_probes": n}))) {
         Ok(info) => {
             println!("policies agree: {info}");
             false
